@@ -31,8 +31,9 @@
               or ended by the kernel);
      liveness WakeWorks: after wake() has returned every channel registered before it eventually returns None;
               Termination (no reader blocks for ever once umount() has run); deadlock freedom.
-   FuseFdEdge = TRUE is a mutation (the fuse descriptor registered the way mio would do it, edge-triggered - the
-   comment in FuseChannel::new explains why the code does not): NoLostReadiness must fail. *)
+   Mut # "none" selects a mutation: "edge" (the fuse descriptor registered the way mio would do it, edge-triggered -
+   the comment in FuseChannel::new explains why the code does not): NoLostReadiness must fail; "skip-waker": a
+   deadlock (lost wake-up) must be reported; "exit-loses": ExitWins must fail. *)
 EXTENDS Naturals, Sequences, FiniteSets, TLC
 
 CONSTANTS Readers,      \* channels created before anything else happens
@@ -41,7 +42,11 @@ CONSTANTS Readers,      \* channels created before anything else happens
           Interrupts,   \* TRUE: read(2) may also return ENOENT / EINTR, epoll_wait EINTR
           UmountWaits,  \* TRUE: umount() is called only after wake() returned and the woken service threads ended
                         \* (then a lost wake-up is a deadlock); FALSE: umount() races with everything
-          FuseFdEdge    \* mutation: the fuse descriptor is registered edge-triggered
+          Mut           \* "none" = the code; mutations that the properties must catch (anti-vacuity):
+                        \* "edge"       the fuse descriptor is registered edge-triggered (as mio would)
+                        \* "skip-waker" wake() forgets the last registered waker
+                        \* "exit-loses" a pending request wins over the exit event, need_exit is reset per iteration
+FuseFdEdge == Mut = "edge"
 
 All == Readers \cup Late
 A == INSTANCE Session WITH Chans <- All, MaxConn <- 1, AsFoundAbort <- TRUE, AsFoundRemount <- TRUE
@@ -99,12 +104,12 @@ POLL: await erdy[self] \/ FuseItemReady(self);
         nint := nint + 1;
         goto POLL;
       or
-        need_exit := need_exit \/ erdy[self];
+        need_exit := (IF Mut = "exit-loses" THEN FALSE ELSE need_exit) \/ erdy[self];
         ev_dev := FuseItemReady(self);
         erdy[self] := FALSE;              \* edge-triggered: reported once per write
         frdy[self] := FALSE;
       end either;
-CHK:  if need_exit then
+CHK:  if need_exit /\ ~(Mut = "exit-loses" /\ ev_dev) then
         ret := "none";
         goto RET;
       elsif ~ev_dev then
@@ -158,7 +163,7 @@ W0:   await ~mtx;
       mtx := TRUE;
       todo := wakers;
       snap := wakers;
-W1:   while todo # {} do
+W1:   while (IF Mut = "skip-waker" THEN Cardinality(todo) > 1 ELSE todo # {}) do
         erdy[Min(todo)] := TRUE;          \* write(eventfd, 1): the epoll callback queues the item
         tokA[Min(todo)] := TRUE;
         todo := todo \ {Min(todo)};
@@ -217,7 +222,7 @@ K:    while connected do
       end while;
 end process;
 end algorithm; *)
-\* BEGIN TRANSLATION (chksum(pcal) = "d1db6950" /\ chksum(tla) = "1868c063")
+\* BEGIN TRANSLATION (chksum(pcal) = "d5a07f51" /\ chksum(tla) = "e0cc99aa")
 VARIABLES pc, connected, attached, sfd, chfd, started, q, sent, proc, 
           answered, ended, erdy, frdy, wakers, mtx, tokA, startTok, got, buf, 
           snap, wakeRet, umRet
@@ -295,7 +300,7 @@ POLL(self) == /\ pc[self] = "POLL"
                     /\ nint' = [nint EXCEPT ![self] = nint[self] + 1]
                     /\ pc' = [pc EXCEPT ![self] = "POLL"]
                     /\ UNCHANGED <<erdy, frdy, need_exit, ev_dev>>
-                 \/ /\ need_exit' = [need_exit EXCEPT ![self] = need_exit[self] \/ erdy[self]]
+                 \/ /\ need_exit' = [need_exit EXCEPT ![self] = (IF Mut = "exit-loses" THEN FALSE ELSE need_exit[self]) \/ erdy[self]]
                     /\ ev_dev' = [ev_dev EXCEPT ![self] = FuseItemReady(self)]
                     /\ erdy' = [erdy EXCEPT ![self] = FALSE]
                     /\ frdy' = [frdy EXCEPT ![self] = FALSE]
@@ -307,7 +312,7 @@ POLL(self) == /\ pc[self] = "POLL"
                               ret, todo >>
 
 CHK(self) == /\ pc[self] = "CHK"
-             /\ IF need_exit[self]
+             /\ IF need_exit[self] /\ ~(Mut = "exit-loses" /\ ev_dev[self])
                    THEN /\ ret' = [ret EXCEPT ![self] = "none"]
                         /\ pc' = [pc EXCEPT ![self] = "RET"]
                    ELSE /\ IF ~ev_dev[self]
@@ -407,7 +412,7 @@ W0 == /\ pc[100] = "W0"
                       buf, wakeRet, umRet, need_exit, ev_dev, cur, ret, nint >>
 
 W1 == /\ pc[100] = "W1"
-      /\ IF todo # {}
+      /\ IF (IF Mut = "skip-waker" THEN Cardinality(todo) > 1 ELSE todo # {})
             THEN /\ erdy' = [erdy EXCEPT ![Min(todo)] = TRUE]
                  /\ tokA' = [tokA EXCEPT ![Min(todo)] = TRUE]
                  /\ todo' = todo \ {Min(todo)}
